@@ -14,6 +14,9 @@ RULE = ("Schema values with `properties` over <= 6 names and a PropertyOrder lis
         "exhaustively, random ones beyond, names absent from properties, duplicates (expected: error), nested schemas each with their own "
         "order; 5 repeated Marshal calls per value (Go re-randomises map iteration). Expected key order computed here from the statement "
         "(listed names first in that order, the rest ascending). Non-trivial: >= 2 properties; distinct = operation text")
+RULE += (". Widened (~8% of the random half): 1..2 of the properties hold a NIL *Schema (what Unmarshal of \"properties\":{\"y\":null} "
+         "produces; Marshal writes null): the name is a key of the Properties map all the same, so it is emitted at its PropertyOrder "
+         "position when listed and among the ascending rest otherwise — judged like every other name, against the statement and the model")
 NAMES = ["b", "a", "d", "c", "é", "Z", "aa", "", "first", "first name", "first!", "x<y", "x=y", "a\"b", "a#", "a\\b", "a]b", "a\tb",
          "a b", "A", "&", "<", ">", "\u2028", "~", "{", "a&b", "a>b", "a\u007fb", "\u00e9a", "e\u0301", "\U0001F600", "\uFFFD"]
 
@@ -24,9 +27,13 @@ def expected_order(props, order):
     return listed + rest
 
 
-def mk(props, order, nested=None):
+def mk(props, order, nested=None, nil=()):
     nodes = [{"Properties": [], "PropertyOrder": order}]
     for k in props:
+        if k in nil and k != nested:
+            nodes.append({})                             # (unreferenced: keeps the node numbering of the nested case)
+            nodes[0]["Properties"].append([k, None])     # a nil *Schema under this name
+            continue
         nodes.append({"Type": "string"} if k != nested else {"Properties": [["y", len(props) + 1], ["x", len(props) + 2]], "PropertyOrder": ["y", "x"]})
         nodes[0]["Properties"].append([k, len(nodes) - 1])
     if nested is not None:
@@ -141,11 +148,12 @@ def _gen(rng, tier, n):
                         "meta": {"props": props, "order": order, "nt": len(props) >= 2, "nested": None, "long": True}})
             continue
         nested = rng.choice(props) if props and rng.random() < 0.3 else None
-        args = {"desc": mk(props, order, nested)}
+        nil = [k for k in rng.sample(props, min(len(props), rng.randint(1, 2))) if k != nested] if props and rng.random() < 0.08 else []
+        args = {"desc": mk(props, order, nested, nil)}
         if props and rng.random() < 0.2:
             args["pre"] = [failing_history(rng, props)]
         ops.append({"op": "marshal", "args": args,
-                    "meta": {"props": props, "order": order or [], "nt": len(props) >= 2, "nested": nested}})
+                    "meta": {"props": props, "order": order or [], "nt": len(props) >= 2, "nested": nested, "nil": nil}})
     return ops
 
 
